@@ -14,6 +14,8 @@ for id in $ids; do
   props=$(python3 -c "import json;print(' '.join(json.load(open('$d/meta.json'))['related_properties']))")
   : > /verif/out/seedmatrix/$id.txt
   for p in $props; do
+    # FAST=1: stop at the first check that catches the change
+    if [ -n "${FAST:-}" ] && grep -q 'violations=[1-9]' /verif/out/seedmatrix/$id.txt; then break; fi
     out=$(cd /verif && timeout 1500 bin/vcheck run -p $p -tier quick -repo $wt -tag $id 2>&1)
     nv=$(echo "$out" | grep -c '^VIOLATION')
     nc=$(echo "$out" | grep -c '^NOT-CLAIMED')
